@@ -115,17 +115,16 @@ theorem keeps_step {cfg : Cfg} {s s' : State} {a : Action} (hr : cfg.std = true)
       split at hs <;> simp at hs <;> subst hs <;> keeps_close hr
   case nrun nid =>
     unfold stepNrun at hs
+    std_norm hr at hs
+    simp only [casStep] at hs
     split at hs
     · simp at hs
     · split at hs
-      · simp at hs; subst hs; keeps_close hr
-      · split at hs
-        · simp at hs
-        · split at hs <;> simp at hs <;> subst hs <;> keeps_close hr
-      · split at hs
-        · simp at hs
-        · split at hs <;> simp at hs <;> subst hs <;> keeps_close hr
-      · simp at hs
+      all_goals (try (split at hs))
+      all_goals (try (split at hs))
+      all_goals (try (simp at hs))
+      all_goals (try subst hs)
+      all_goals keeps_close hr
   case nwrite nid o =>
     unfold stepNwrite at hs
     split at hs
